@@ -75,7 +75,7 @@ M = [
     ("cl_nonce_reused", "C01", "src/bin/roughenough-client.rs", "    for _ in 0..num_requests {\n        let nonce = create_nonce(version);", "    let nonce0 = create_nonce(version);\n    for _ in 0..num_requests {\n        let nonce = nonce0.clone();", "break"),
     ("cl_verify_args_swapped", "C01", "src/bin/roughenough-client.rs", "ResponseHandler::new(version, pub_key.clone(), resp.clone(), nonce.clone(), request)", "ResponseHandler::new(version, pub_key.clone(), resp.clone(), request.clone(), nonce)", "break"),
     ("cl_nonce_len_classic_32", "C03", "src/bin/roughenough-client.rs", "            let mut nonce = [0u8; 64];", "            let mut nonce = [0u8; 32];", "break"),
-    ("rep_merge_replaced", "C17", "src/stats/reporter.rs", "                    .or_insert_with_key(|ip_addr| ClientStats::new(*ip_addr))\n                    .merge(&client);", "                    .or_insert_with_key(|ip_addr| ClientStats::new(*ip_addr))\n                    .clone_from(&client);", "break"),
+    ("rep_merge_replaced", "C17", "src/stats/reporter.rs", "                    .or_insert_with_key(|ip_addr| ClientStats::new(*ip_addr))\n                    .merge(&client);", "                    .or_insert_with_key(|ip_addr| ClientStats::new(*ip_addr))\n                    .rfc_requests += client.rfc_requests;", "break"),
     ("gr_corrupt_keeps_nonce_twice", "C07", "src/grease.rs", "let mut random_sig: [u8; SIGNATURE_LENGTH as usize] = [0u8; SIGNATURE_LENGTH as usize];", "let mut random_sig: [u8; 1024] = [0u8; 1024];", "break"),
     ("hc_accept_unwrap", "C08", "src/server.rs", "                match stream.write_all(HTTP_RESPONSE.as_bytes()) {\n                    Ok(_) => (),\n                    Err(e) => warn!(\"error writing health check {}\", e),\n                };", "                stream.write_all(HTTP_RESPONSE.as_bytes()).unwrap();", "break"),
     ("h_config_helper", "C16", "src/config/mod.rs", "    if cfg.batch_size() < 1 || cfg.batch_size() > 64 {", "    if !(1..=64).contains(&cfg.batch_size()) {", "harmless"),
